@@ -159,6 +159,19 @@ CLAIMS['C12'] = dict(
     technique="Lean 4 proof (trace semantics; closed forms for fixed buffers and the length writer) + differential check with scripted writers",
     design_ref="§5 C12")
 
+CLAIMS['C13'] = dict(
+    text=("The codec model has no io parameter: both builds compile the same borsh source and are described by the "
+          "same Lean functions; the io facade is modelled twice (std::io as documented, nostd_io.rs as written) and "
+          "proved equivalent: C13_reader_equiv, C13_slice_writer_equiv, C13_vec_writer_equiv (every sequence of "
+          "read/read_exact/write/write_all/flush on slices and vectors, reads past the end and full buffers included), "
+          "C13_read_exact_loop_equiv. Differential run: the SAME harness source built against both builds runs the "
+          "same seeded workloads (encodings, malformed inputs, scripted readers/writers, zero-sized collections, io "
+          "operation sequences); four transcripts (real std, real no_std, model) are compared: each build against the "
+          "model, and std against no_std case by case, plus the raw error message texts of both builds on the "
+          "malformed-input workload."),
+    technique="Lean 4 proof (equivalence of the two io models by induction over operation sequences) + 4-way differential transcripts",
+    design_ref="§5 C13")
+
 NOT_YET = {
 }
 
